@@ -14,7 +14,7 @@ LEVEL = 'exploration'
 TECHNIQUE = ('model-based / stateful: operation histories (Hypothesis-generated long sequences and bounded-exhaustive '
              'short ones) run in lock-step against a list model of live (key, id) items')
 RULE = ("A case is (heap kind min|max, key range, operation history). Operations: push(k), pop, peek, "
-        "decrease_key(live handle i, new key k' <= k) [increase for the max-heap], an attempted key change on the wrong side (documented to raise ValueError; the queue must carry on unchanged), remove(live handle i), len/bool; "
+        "decrease_key(live handle i, new key k' <= k) [increase for the max-heap], pop / peek on an empty queue (whatever they raise, the queue stays empty and usable), an attempted key change on the wrong side (documented to raise ValueError; the queue must carry on unchanged), remove(live handle i), len/bool; "
         "handles are the HeapNodes returned by push and only live handles are used (the documented precondition). "
         "Generated: sequences of up to 60 (quick) / 400 (thorough) operations over keys {0..3} (many duplicates) or "
         "{0..50}, plus 200-2000-operation sequences in the thorough tier. Bounded exhaustive: every sequence of length "
@@ -167,6 +167,7 @@ def check(case):
     popped = False
     post = False
     refused = False
+    emptied = False
     cleared = False
     executed = 0
 
@@ -192,6 +193,15 @@ def check(case):
                 executed += 1
             elif name == 'pop':
                 if not live:
+                    # extraction from an empty queue: whatever it answers or raises, the queue must stay empty and usable
+                    try:
+                        h.pop()
+                    except Exception:
+                        pass
+                    emptied = True
+                    if heap_len(h) != 0 or bool(h):
+                        out.fail('len-disagrees', f"step {step}: after pop() on an empty queue len(heap) = {heap_len(h)}, bool = {bool(h)}")
+                        return out
                     continue
                 it = h.pop()
                 popped = True
@@ -206,6 +216,13 @@ def check(case):
                 del live[idx]
             elif name == 'peek':
                 if not live:
+                    try:
+                        h.peek()
+                    except Exception:
+                        pass
+                    if heap_len(h) != 0 or bool(h):
+                        out.fail('len-disagrees', f"step {step}: after peek() on an empty queue len(heap) = {heap_len(h)}, bool = {bool(h)}")
+                        return out
                     continue
                 it = h.peek()
                 executed += 1
@@ -281,6 +298,8 @@ def check(case):
         out.label('refused-key-change')
     if cleared:
         out.label('cleared-and-reused')
+    if emptied:
+        out.label('pop-on-empty')
     if post:
         out.label('decrease/remove-after-pop')
     out.info = {'executed_ops': executed}
